@@ -26,7 +26,7 @@ import z3
 from . import sym as S
 from .sym import Sym, is_sym
 from . import front
-from .engine import (Ctx, Interp, PyRaise, OutOfReach, _DeadPath, MDict, TokenM, PathLimit)
+from .engine import (Ctx, Interp, PyRaise, OutOfReach, _DeadPath, MDict, TokenM, PathLimit, LoopBodyDone)
 
 Z3_TIMEOUT_MS = int(os.environ.get("PYVC_Z3_MS", "10000"))
 CVC5_TIMEOUT_S = int(os.environ.get("PYVC_CVC5_S", "30"))
@@ -249,6 +249,18 @@ def solve_valid(pc, goal, timeout_ms=None, use_cvc5=True, names=()):
                 continue
             return dict(verdict="refuted", backend="z3", time=time.time() - t0, model=m, rounds=rounds,
                         model_consistent=not facts)
+        # unknown: z3 often still holds a candidate model (e.g. "incomplete (theory seq)" because of
+        # replace_all).  If that candidate contradicts CPython on a ground UF instance, add the true
+        # fact and try again — every added fact is true, so this cannot make an invalid VC provable.
+        try:
+            m = s.model()
+            facts = _ground_refinements(m, fs + extra + S.axioms_for(fs + extra))
+        except z3.Z3Exception:
+            facts = []
+        if facts and rounds < 12:
+            extra.extend(facts)
+            rounds += 1
+            continue
         break
     res = dict(verdict="unknown", backend="z3", time=time.time() - t0, rounds=rounds, reason=s.reason_unknown())
     if use_cvc5:
@@ -334,7 +346,8 @@ def _sval(v):
 
 def _cvc5(smt2, timeout_s, names=()):
     # z3 prints (declare-fun x () String) etc.; cvc5 needs a logic and --strings-exp
-    lines = [l for l in smt2.splitlines() if not l.startswith("(set-info")]
+    lines = [l for l in smt2.splitlines() if not l.startswith("(set-info") and not l.startswith("(declare-fun py_replace ")]
+    lines = [l.replace("(py_replace ", "(str.replace_all ") for l in lines]
     text = "(set-logic ALL)\n" + "\n".join(lines)
     declared = [n for n in names if ("(declare-fun %s ()" % _smt_name(n)) in text]
     if declared:
@@ -401,7 +414,7 @@ def _reach(objs):
     return seen
 
 
-def explore(contract, case, contracts, max_paths=None):
+def explore(contract, case, contracts, max_paths=None, loop_mode=None):
     """All paths of the target function for one case.  Returns (paths, info); a path is a dict with
     pc, outcome, requires, writes, symbols, args."""
     fn = front.resolve(contract.target) if contract.target else None
@@ -418,6 +431,10 @@ def explore(contract, case, contracts, max_paths=None):
         interp = Interp(ctx, contracts=contracts, target=fn)
         E = SymE(ctx, interp)
         interp.E = E
+        for c in contracts.values():
+            for ordn, spec in getattr(c, "loops", {}).items():
+                interp.loop_specs[(c.target, ordn)] = spec
+        interp.loop_mode = loop_mode
         try:
             args, kwargs = contract.build(E, case)
             reach = _reach(list(args) + list(kwargs.values()))
@@ -430,6 +447,8 @@ def explore(contract, case, contracts, max_paths=None):
                     out = Outcome("return", value)
             except PyRaise as ex:
                 out = Outcome("raise", exc=ex.etype, exc_args=ex.eargs, where=ex.where)
+            except LoopBodyDone:
+                out = Outcome("loop-body")
         except _DeadPath:
             work.extend(ctx.alts)
             continue
@@ -440,38 +459,65 @@ def explore(contract, case, contracts, max_paths=None):
 
 
 def verify_case(contract, case, contracts, want_models=True):
-    """Verify one case; returns a list of plain-data obligation records."""
+    """Verify one case (all loop modes); returns a list of plain-data obligation records."""
+    modes = [None]
+    if contract.target:
+        for ordn, spec in getattr(contract, "loops", {}).items():
+            for ec in spec.elem_cases:
+                modes.append((contract.target, ordn, ec))
+    out = []
+    for mode in modes:
+        out.extend(_verify_mode(contract, case, contracts, want_models, mode))
+    return out
+
+
+def _verify_mode(contract, case, contracts, want_models, mode):
     t_start = time.time()
     recs = []
-    qual = contract.target
     qual = contract.name
-    base = dict(function=qual, case=str(case))
+    label = str(case) if mode is None else f"{case}@loop{mode[1]}[{mode[2]}]"
+    base = dict(function=qual, case=label)
     try:
-        fn, paths = explore(contract, case, contracts)
+        fn, paths = explore(contract, case, contracts, loop_mode=mode)
     except OutOfReach as ex:
-        return [dict(base, name=f"{qual}[{case}]", clause="*", verdict="out-of-reach", reason=str(ex), time=time.time() - t_start)]
+        return [dict(base, name=f"{qual}[{label}]", clause="*", verdict="out-of-reach", reason=str(ex), time=time.time() - t_start)]
     except PathLimit as ex:
-        return [dict(base, name=f"{qual}[{case}]", clause="*", verdict="out-of-reach", reason=str(ex), time=time.time() - t_start)]
+        return [dict(base, name=f"{qual}[{label}]", clause="*", verdict="out-of-reach", reason=str(ex), time=time.time() - t_start)]
     except S.SymBoolError as ex:
-        return [dict(base, name=f"{qual}[{case}]", clause="*", verdict="checker-error", reason="SymBoolError: " + str(ex) + "\n" + traceback.format_exc(), time=time.time() - t_start)]
+        return [dict(base, name=f"{qual}[{label}]", clause="*", verdict="checker-error", reason="SymBoolError: " + str(ex) + "\n" + traceback.format_exc(), time=time.time() - t_start)]
     if not paths:
-        return [dict(base, name=f"{qual}[{case}]", clause="*", verdict="vacuous", reason="no feasible path (contradictory precondition?)", time=time.time() - t_start)]
+        return [dict(base, name=f"{qual}[{label}]", clause="*", verdict="vacuous", reason="no feasible path (contradictory precondition?)", time=time.time() - t_start)]
+    if mode is not None and not any(p["out"].kind == "loop-body" for p in paths):
+        # the arbitrary iteration was never reached: nothing was checked for this mode
+        return [dict(base, name=f"{qual}[{label}]", clause="*", verdict="vacuous", reason="loop body not reached in loop mode", time=time.time() - t_start)]
     sha = front.source_sha(fn) if fn is not None else "lemma"
     for pi, p in enumerate(paths):
         ctx, E, out = p["ctx"], p["E"], p["out"]
         clauses = []
-        try:
-            for name, cond in contract.ensures(E, case, p["args"], p["kwargs"], out):
-                clauses.append((name, cond, None))
-        except S.SymBoolError as ex:
-            recs.append(dict(base, name=f"{qual}[{case}]#p{pi}", clause="*", verdict="checker-error",
-                             reason="SymBoolError in ensures: " + traceback.format_exc()))
-            continue
-        except OutOfReach as ex:
-            recs.append(dict(base, name=f"{qual}[{case}]#p{pi}", clause="*", verdict="out-of-reach", reason=str(ex)))
-            continue
+        if out.kind != "loop-body" and mode is None:
+            try:
+                for name, cond in contract.ensures(E, case, p["args"], p["kwargs"], out):
+                    clauses.append((name, cond, None))
+            except S.SymBoolError as ex:
+                recs.append(dict(base, name=f"{qual}[{label}]#p{pi}", clause="*", verdict="checker-error",
+                                 reason="SymBoolError in ensures: " + traceback.format_exc()))
+                continue
+            except OutOfReach as ex:
+                recs.append(dict(base, name=f"{qual}[{label}]#p{pi}", clause="*", verdict="out-of-reach", reason=str(ex)))
+                continue
+        elif out.kind == "raise" and mode is not None:
+            # an exception inside the arbitrary iteration: let the contract judge it
+            try:
+                for name, cond in contract.ensures(E, case, p["args"], p["kwargs"], out):
+                    clauses.append((name, cond, None))
+            except (S.SymBoolError, OutOfReach) as ex:
+                recs.append(dict(base, name=f"{qual}[{label}]#p{pi}", clause="*", verdict="out-of-reach", reason=repr(ex)))
+                continue
+        elif out.kind == "return" and mode is not None:
+            continue   # a path that left before the loop: covered by mode None
         for name, t, n in ctx.requires:
-            clauses.append(("requires:" + name, Sym(S.BOOL, t), n))
+            if mode is None or name.startswith(f"loop{mode[1]}:") or not name.startswith("loop"):
+                clauses.append(("requires:" + name, Sym(S.BOOL, t), n))
         mod = getattr(contract, "modifies", None)
         if mod is not None:
             allowed = set()
@@ -483,7 +529,7 @@ def verify_case(contract, case, contracts, want_models=True):
         for cname, cond, npc in clauses:
             cond = S.truthy(cond)
             pc = ctx.pc if npc is None else ctx.pc[:npc]
-            rec = dict(base, name=f"{qual}[{case}]#p{pi}:{cname}", clause=cname, path=pi, sha=sha,
+            rec = dict(base, name=f"{qual}[{label}]#p{pi}:{cname}", clause=cname, path=pi, sha=sha,
                        outcome=repr(out)[:200], n_pc=len(pc))
             if not is_sym(cond):
                 if cond:
@@ -491,14 +537,14 @@ def verify_case(contract, case, contracts, want_models=True):
                 else:
                     # the clause is false outright on this (feasible) path: find a witness of the path
                     r = solve_valid(pc, z3.BoolVal(False), names=list(ctx.symbols))
-                    rec.update(_finish(r, contract, case, ctx, cname, want_models, fn, extra=p.get("bad_writes")))
+                    rec.update(_finish(r, contract, case, ctx, cname, want_models and mode is None, fn, extra=p.get("bad_writes")))
             else:
                 r = solve_valid(pc, cond.t, names=list(ctx.symbols))
-                rec.update(_finish(r, contract, case, ctx, cname, want_models, fn))
+                rec.update(_finish(r, contract, case, ctx, cname, want_models and mode is None, fn))
             recs.append(rec)
     for r in recs:
         r.setdefault("time", 0.0)
-    recs.append(dict(base, name=f"{qual}[{case}]:paths", clause="$meta", verdict="meta", paths=len(paths),
+    recs.append(dict(base, name=f"{qual}[{label}]:paths", clause="$meta", verdict="meta", paths=len(paths),
                      time=time.time() - t_start, sha=sha))
     return recs
 
